@@ -118,7 +118,7 @@ func variants(full []byte, rng *rand.Rand, all bool, perField int) []variant {
 			continue
 		}
 		cur := binary.BigEndian.Uint32(raw[fr.lo:])
-		for _, nv := range []uint32{0, 1, cur - 1, cur + 1, 1 << 16, 1<<31 - 1, 1<<32 - 1, 0x10000000} {
+		for _, nv := range []uint32{0, 1, cur - 1, cur + 1, 1 << 16, 1<<31 - 1, 1<<32 - 1, 0x10000000, 1 << 30, 1<<30 + 1, 1 << 31} {
 			if nv == cur {
 				continue
 			}
@@ -553,6 +553,14 @@ func deviantSMP(w *world.World, wm *world.WireMsg, idx int, force string) ([]byt
 	// the count variants can be asked for by name (systematic families)
 	if k, ok := map[string]int{"count-1": 0, "count+1": 1, "count0": 2, "countmax": 3, "count2^28": 4}[force]; ok {
 		v = nfields*nb + k
+	}
+	if cnt, ok := map[string]uint32{"count2^30": 1 << 30, "count2^30+1": 1<<30 + 1, "count2^31": 1 << 31}[force]; ok {
+		// counts whose product with the size of a number wraps around in 32 bits
+		nv := build(cnt, mpis, question)
+		tlvs[ti] = ref.TLV{Type: t.Type, Value: nv}
+		d.Enc = ref.CTR(keys.SendAES, d.Ctr[:], ref.JoinPlain(text, tlvs))
+		d.MAC = ref.HMAC1(keys.SendMAC, h.HdrBytes, d.Unsigned())
+		return ref.Armor(append(append([]byte{}, h.HdrBytes...), d.Bytes()...)), "corrupt", fmt.Sprintf("t%d-%s", t.Type, force)
 	}
 	class, name := "bad", ""
 	var newVal []byte
